@@ -83,6 +83,11 @@ func max1(n int) int {
 func runC03(args []string) {
 	run := ev.NewRun("C03", "model_checking", args)
 	amgr.FastScrypt()
+	if !ev.IsWorker() {
+		cov := run.RunSharded(16, append([]string{"c03"}, args...))
+		c03Finish(run, cov)
+		return
+	}
 	zName, _ := amgr.FindLeadingZeroSeed(84, 0)
 	type cfg struct {
 		seed  string
@@ -152,32 +157,40 @@ func runC03(args []string) {
 		if issuing > 0 && other > 0 {
 			nontrivial++
 		}
-		if len(samples) < 5 && execs%1777 == 5 {
+		if len(samples) < 2 && execs%177 == 5 {
 			samples = append(samples, j.Describe()+" => "+obs)
 		}
 		mu.Unlock()
 	}, run.Expired)
-	if len(samples) == 0 {
-		samples = []string{"(none)"}
-	}
-	run.Assumption = []string{
-		"reference derivation harness/refbip32 (HMAC-SHA512 + secp256k1 arithmetic from btcec) implements btcsuite's legacy hardened rule: parent key bytes as held in memory, left aligned",
-		"address encoders of btcutil/txscript (external dependencies) are trusted",
-		"a state is its operation history (live managers cannot be cloned); states = distinct (outcome vector, issued count, lock state) observations",
+	var obsList []string
+	for o := range obsSet {
+		obsList = append(obsList, o)
 	}
 	run.Finish(ev.Coverage{
-		"states":                        len(obsSet),
+		"states@set":                    obsList,
 		"transitions":                   execs,
 		"traces_validated_against_impl": execs,
 		"evaluations":                   evals,
 		"distinct_nontrivial":           nontrivial,
-		"rule":                          "every operation sequence up to the depth over the alphabet, from several base states, per seed and key scope; oracle after the last operation on every address issued so far (lookup, derive-by-path, root lookup, enumeration, counts, private key when unlocked); non-trivial = sequences mixing at least one issuing operation with at least one other operation",
 		"executions":                    done,
-		"configs":                       len(cfgs),
-		"leading_zero_seed":             zName,
 		"exhaustive":                    complete,
 		"samples":                       samples,
+		"configs":                       len(cfgs),
+		"leading_zero_seed":             zName,
 	})
+}
+
+func c03Finish(run *ev.Run, cov ev.Coverage) {
+	cov["rule"] = "every operation sequence up to the depth over the alphabet, from several base states, per seed and key scope; oracle after the last operation on every address issued so far (lookup, derive-by-path, root lookup, enumeration, counts, private key when unlocked); non-trivial = sequences mixing at least one issuing operation with at least one other operation; states = distinct (outcome vector, issued count, lock state) observations"
+	if _, ok := cov["samples"]; !ok {
+		cov["samples"] = []string{"(none)"}
+	}
+	run.Assumption = []string{
+		"reference derivation harness/refbip32 (HMAC-SHA512 + secp256k1 arithmetic from btcec) implements btcsuite's legacy hardened rule: parent key bytes as held in memory, left aligned",
+		"address encoders of btcutil/txscript (external dependencies) are trusted",
+		"a state is its operation history (live managers cannot be cloned)",
+	}
+	run.Finish(cov)
 }
 
 func replayC03(prop, sig string, raw json.RawMessage) int {
